@@ -13,7 +13,9 @@ if os.path.realpath(REPO) != "/repo":
     COQ = os.path.join(ALT, "coq")
     os.makedirs(COQ, exist_ok=True)
     os.environ["VERIF_COQ"] = COQ
-    subprocess.run(["rsync", "-a", "--delete", "--exclude", "run/", "--exclude", "gen/*.v", "--exclude", "gen/*.vo",
+    # gen/*.v and gen/*.vo are copied together with everything else (a consistent set); the extraction that follows rewrites a
+    # generated file only if the other tree's source makes its content differ, and make then rebuilds what depends on it
+    subprocess.run(["rsync", "-a", "--delete", "--exclude", "run/",
                     "--exclude", "Makefile*", "--exclude", ".Makefile.d", "--exclude", "_CoqProject",
                     os.path.join(VERIF, "coq") + "/", COQ + "/"], check=False)
 sys.path.insert(0, os.path.join(VERIF, "gen"))
